@@ -144,13 +144,16 @@ def _fix_undefined_variables(source: str, variables: Collection[str]) -> str:
 
     lines = source.splitlines()
     change_count = -len(lines)
+    # Behind the module docstring and the __future__ imports, however many lines they take
+    start = 0
+    for i, node in enumerate(core.parse(source).body):
+        is_docstring = i == 0 and core.match_template(node, ast.Expr(value=ast.Constant(value=str)))
+        if not is_docstring and not core.match_template(node, ast.ImportFrom(module="__future__")):
+            break
+        start = node.end_lineno
+
     lineno = next(
-        i
-        for i, line in enumerate(lines)
-        if not line.startswith("#")
-        and not line.startswith("'''")
-        and not line.startswith('"""')
-        and not line.startswith("from __future__ import")
+        (i for i in range(start, len(lines)) if not lines[i].startswith("#")), len(lines)
     )
     for package, package_variables in constants.ASSUMED_SOURCES.items():
         overlap = variables.intersection(package_variables)
